@@ -11,11 +11,21 @@
   operations to a state under an arbitrary semantics `app`.
 
   First half (rewrites): proved for every circuit, every iteration order of the Python dictionaries and every
-  topological order.  The only physical input is the hypothesis that operations on disjoint quantum registers commute
-  (textbook; the correspondence run checks the conclusion against both graphiq backends, branch by branch).
+  topological order.  §2 states the semantic theorems for an abstract semantics `app` under the hypothesis that operations
+  on disjoint quantum registers commute; §2b discharges that hypothesis for the verified stabilizer semantics (C07's group
+  transformers, outcomes attached to the measuring operations) and §2c ties that semantics to the compile loop `stabRun`,
+  so that "rewrites preserve the compiled state / compile does not depend on the topological order" is a theorem about
+  the tableaux the stabilizer backend produces, with no physical assumption.  §2d: gate-only circuits — literally the
+  same tableau; §2e: the classical record; §2e′: the probability of the outcome assignment; §2f: the conclusions as
+  equalities of density matrices.  (The density-matrix backend is compared with the stabilizer backend branch by branch
+  by the correspondence run.)
   Second half (aliasing): *partial by nature* — see §3.
 -/
 import GraphiqModel.Proofs.Wire
+import GraphiqModel.Proofs.CommuteTableau
+import GraphiqModel.Proofs.CommuteRecordRw
+import GraphiqModel.Proofs.CommuteHilbert
+import GraphiqModel.Proofs.CommuteProb
 namespace Graphiq.C13
 open Graphiq Graphiq.Wire
 
@@ -79,6 +89,611 @@ theorem rewrite_preserves_compiled_state {σ : Type} (app : SOp → σ → σ)
   have hg' := h.good hgood
   exact denote_eq_of_flat_eq app hcomm c' c hg'.1 hgood.1 (good_arity1 hg') (good_arity1 hgood)
     (good_qNonempty hg') (good_qNonempty hgood) seq' seq hl' hl (h.flat_eq hgood) s
+
+/-- the same for any finite chain of rewrites (`Commute.RewritesStar`; sanity is preserved along the chain) -/
+theorem rewrite_chain_preserves_compiled_state {σ : Type} (app : SOp → σ → σ)
+    (hcomm : ∀ a b : SOp, (∀ r, r ∈ a.regs → r ∉ b.regs) → ∀ s, app a (app b s) = app b (app a s))
+    (c c' : Circuit) (hgood : c.Good) (h : Commute.RewritesStar c c') (seq seq' : List Nat)
+    (hl : c.isLinearExtension seq = true) (hl' : c'.isLinearExtension seq' = true) (s : σ) :
+    runSeq app (c'.sops seq') s = runSeq app (c.sops seq) s := by
+  have hg' := h.good hgood
+  exact denote_eq_of_flat_eq app hcomm c' c hg'.1 hgood.1 (good_arity1 hg') (good_arity1 hgood)
+    (good_qNonempty hg') (good_qNonempty hgood) seq' seq hl' hl (h.flat_eq hgood) s
+
+/-! ## 2b. the commutation hypothesis discharged: the verified stabilizer semantics
+
+  `Commute.appG ne np : SOp → GSt ne np → GSt ne np` (Proofs/CommuteSem) is the semantics of one operation of the compile
+  sequence on states "stabilizer group of a valid tableau on `ne + np` qubits + the unread measurement outcomes of every
+  register" (or "cannot occur"): gates act by C07's `specGate`, measurements by C07's `specMeasure`; the outcome of a
+  measuring operation is attached to the *operation* (the k-th measuring operation on a wire takes the k-th entry of that
+  wire's outcome stream), and a recorded outcome of probability zero makes the run impossible.  In this semantics the
+  hypothesis `hcomm` of the theorems of §2 is a theorem (`stabilizer_ops_on_disjoint_registers_commute`), so the three
+  theorems hold for the stabilizer semantics with no physical assumption left. -/
+
+/-- **operations on disjoint quantum registers commute in the stabilizer semantics** — gate/gate (pointwise on rows),
+    gate/measurement, measurement/measurement (the same outcome pairs are possible in both orders and give the same group),
+    classically controlled gates and measure-and-reset; for every state -/
+theorem stabilizer_ops_on_disjoint_registers_commute (ne np : Nat) (a b : SOp) (h : ∀ r, r ∈ a.regs → r ∉ b.regs)
+    (s : Commute.GSt ne np) :
+    Commute.appG ne np a (Commute.appG ne np b s) = Commute.appG ne np b (Commute.appG ne np a s) :=
+  Commute.appG_comm ne np a b h s
+
+/-- `same_wires_same_state` for the stabilizer semantics, no hypothesis on the semantics left -/
+theorem same_wires_same_state_stab (ne np : Nat) (l1 l2 : List SOp) (hne1 : ∀ a, a ∈ l1 → a.regs ≠ [])
+    (hne2 : ∀ a, a ∈ l2 → a.regs ≠ []) (h : ∀ r, projReg SOp.regs r l1 = projReg SOp.regs r l2) (s : Commute.GSt ne np) :
+    runSeq (Commute.appG ne np) l1 s = runSeq (Commute.appG ne np) l2 s :=
+  same_wires_same_state SOp.regs (Commute.appG ne np) (Commute.appG_comm ne np) l1 l2 hne1 hne2 h s
+
+/-- **the stabilizer state a circuit compiles to does not depend on the topological order** `sequence()` returns: same
+    stabilizer group (and the same outcome assignments are possible), for every circuit, every pair of linear extensions,
+    every initial state and every assignment of outcomes to the measuring operations -/
+theorem compile_independent_of_topological_order_stab (ne np : Nat) (c : Circuit) (hgood : c.Good) (seq1 seq2 : List Nat)
+    (hl1 : c.isLinearExtension seq1 = true) (hl2 : c.isLinearExtension seq2 = true) (s : Commute.GSt ne np) :
+    runSeq (Commute.appG ne np) (c.sops seq1) s = runSeq (Commute.appG ne np) (c.sops seq2) s :=
+  compile_independent_of_topological_order (Commute.appG ne np) (Commute.appG_comm ne np) c hgood seq1 seq2 hl1 hl2 s
+
+/-- for any finite chain of the five rewrites (`Commute.RewritesStar`) —
+    **copying, unwrapping, grouping, removing identities and attaching an empty noise map do not change the stabilizer
+    state the circuit compiles to**, whatever topological orders the two compilations use, for every assignment of
+    outcomes to the measuring operations (named by their position on the wire of the measured qubit, which the rewrites
+    preserve) -/
+theorem rewrite_chain_preserves_compiled_state_stab (ne np : Nat) (c c' : Circuit) (hgood : c.Good) (h : Commute.RewritesStar c c')
+    (seq seq' : List Nat) (hl : c.isLinearExtension seq = true) (hl' : c'.isLinearExtension seq' = true)
+    (s : Commute.GSt ne np) :
+    runSeq (Commute.appG ne np) (c'.sops seq') s = runSeq (Commute.appG ne np) (c.sops seq) s :=
+  rewrite_chain_preserves_compiled_state (Commute.appG ne np) (Commute.appG_comm ne np) c c' hgood h seq seq' hl hl' s
+
+/-- **copying, unwrapping, grouping, removing identities and attaching an empty noise map do not change the stabilizer
+    state the circuit compiles to**, whatever topological orders the two compilations use, for every assignment of
+    outcomes to the measuring operations (named by their position on the wire of the measured qubit, which the rewrites
+    preserve) -/
+theorem rewrite_preserves_compiled_state_stab (ne np : Nat) (c c' : Circuit) (hgood : c.Good) (h : Rewrites c c')
+    (seq seq' : List Nat) (hl : c.isLinearExtension seq = true) (hl' : c'.isLinearExtension seq' = true)
+    (s : Commute.GSt ne np) :
+    runSeq (Commute.appG ne np) (c'.sops seq') s = runSeq (Commute.appG ne np) (c.sops seq) s :=
+  rewrite_chain_preserves_compiled_state_stab ne np c c' hgood (Commute.RewritesStar.single h) seq seq' hl hl' s
+
+/-- for any finite chain of the five rewrites (`Commute.RewritesStar`) —
+    read on the compile loop proper: started in `|0…0⟩` with the circuit's own register counts, the rewritten circuit
+    ends in the same stabilizer group as the original (or both runs are impossible for that outcome assignment) -/
+theorem rewrite_chain_preserves_compiled_group (c c' : Circuit) (hgood : c.Good) (h : Commute.RewritesStar c c') (seq seq' : List Nat)
+    (hl : c.isLinearExtension seq = true) (hl' : c'.isLinearExtension seq' = true) (sc : Commute.Script) :
+    runSeq (Commute.appRaw c.ne c.np) (c'.sops seq') (some (TabSpec.gstate (Tab.ket0 (c.ne + c.np)), sc)) =
+      runSeq (Commute.appRaw c.ne c.np) (c.sops seq) (some (TabSpec.gstate (Tab.ket0 (c.ne + c.np)), sc)) := by
+  have := rewrite_chain_preserves_compiled_state_stab c.ne c.np c c' hgood h seq seq' hl hl' (Commute.GSt.init c.ne c.np sc)
+  have h2 := congrArg Subtype.val this
+  rw [Commute.runSeq_appG_val, Commute.runSeq_appG_val] at h2
+  exact h2
+
+/-- read on the compile loop proper: started in `|0…0⟩` with the circuit's own register counts, the rewritten circuit
+    ends in the same stabilizer group as the original (or both runs are impossible for that outcome assignment) -/
+theorem rewrite_preserves_compiled_group (c c' : Circuit) (hgood : c.Good) (h : Rewrites c c') (seq seq' : List Nat)
+    (hl : c.isLinearExtension seq = true) (hl' : c'.isLinearExtension seq' = true) (sc : Commute.Script) :
+    runSeq (Commute.appRaw c.ne c.np) (c'.sops seq') (some (TabSpec.gstate (Tab.ket0 (c.ne + c.np)), sc)) =
+      runSeq (Commute.appRaw c.ne c.np) (c.sops seq) (some (TabSpec.gstate (Tab.ket0 (c.ne + c.np)), sc)) :=
+  rewrite_chain_preserves_compiled_group c c' hgood (Commute.RewritesStar.single h) seq seq' hl hl' sc
+
+/-! ## 2c. the compile loop of the stabilizer backend refines that semantics
+
+  `stabRun` / `stepOp` (Model/Circuit.lean) is the function-by-function model of `CompilerBase.compile` +
+  `StabilizerCompiler.compile_one_gate` that C01 compares with the real compiler on every run.  Each of its steps, under
+  every measurement setting (`Det`: forced 0, forced 1, probabilistic with a drawn script), acts on the stabilizer group of
+  the tableau as `appRaw` does with the outcome the step recorded; so the theorems of §2b are theorems about the tableaux
+  the compile loop produces. -/
+
+/-- **the stabilizer compile loop refines the group semantics**: if the loop runs the compile sequence of a sane circuit
+    (along any node order `seq`, under any measurement setting and drawn script) to the state `s'`, then the tableau stays
+    valid and the group semantics, run on the outcome streams made of the outcomes `s'.outs` the loop recorded, is possible
+    and ends in exactly the stabilizer group of the final tableau, with all outcomes read -/
+theorem compile_loop_refines_stabilizer_semantics (c : Circuit) (hgood : c.Good) (har : Commute.ArityOk c) (seq : List Nat)
+    (d : Det) (script : List Bool) (s' : RunState)
+    (h : stabRun c.ne c.np d script ((c.sops seq).map Commute.toCOp) = some s') :
+    s'.t.Valid ∧ ∀ sc, runSeq (Commute.appRaw c.ne c.np) (c.sops seq)
+        (some (TabSpec.gstate (Tab.ket0 (c.ne + c.np)), Commute.feed c.ne c.np (c.sops seq) s'.outs sc)) =
+      some (TabSpec.gstate s'.t, sc) :=
+  ⟨(Commute.stabRun_refines c hgood har seq d script s' h).1.valid, (Commute.stabRun_refines c hgood har seq d script s' h).2⟩
+
+/-- the hypothesis `hout` of the theorems below, spelled out: the per-register outcome streams of two runs agree iff on every
+    register the measuring operations recorded, in the order of that wire, the same outcomes (`Commute.outsOn`) -/
+theorem same_outcome_streams_iff (c c' : Circuit) (seq seq' : List Nat) (outs outs' : List Bool) :
+    Commute.feed c.ne c.np (c.sops seq) outs (fun _ => []) = Commute.feed c'.ne c'.np (c'.sops seq') outs' (fun _ => []) ↔
+      ∀ r, Commute.outsOn c.ne c.np (c.sops seq) outs r = Commute.outsOn c'.ne c'.np (c'.sops seq') outs' r :=
+  Commute.feed_eq_iff _ _ _ _ _ _ _ _
+
+/-- **and conversely (completeness)**: every run of the compile sequence that is possible in the group semantics — from
+    `|0…0⟩`, reading the outcome streams `F` completely — is produced by the compile loop in probabilistic mode under some
+    script of drawn bits: the loop ends in a tableau with exactly the final group and records exactly the outcomes read -/
+theorem compile_loop_complete_for_stabilizer_semantics (c : Circuit) (hgood : c.Good) (har : Commute.ArityOk c)
+    (seq : List Nat) (F : Commute.Script) (g' : TabSpec.GState)
+    (h : runSeq (Commute.appRaw c.ne c.np) (c.sops seq) (some (TabSpec.gstate (Tab.ket0 (c.ne + c.np)), F)) =
+      some (g', fun _ => [])) :
+    ∃ (script : List Bool) (s' : RunState),
+      stabRun c.ne c.np .prob script ((c.sops seq).map Commute.toCOp) = some s' ∧ TabSpec.gstate s'.t = g' ∧
+        F = Commute.feed c.ne c.np (c.sops seq) s'.outs (fun _ => []) :=
+  Commute.stabRun_complete c hgood har seq F g' h
+
+/-- **the tableau the stabilizer backend compiles to does not depend on the topological order**: two runs of the compile
+    loop on the same sane circuit, along any two linear extensions of its DAG, under any measurement settings and scripts, in
+    which every measuring operation recorded the same outcome (`hout`: the per-register outcome streams agree), end in
+    tableaux with the same signed stabilizer group -/
+theorem compiled_tableau_independent_of_topological_order (c : Circuit) (hgood : c.Good) (har : Commute.ArityOk c)
+    (seq1 seq2 : List Nat) (hl1 : c.isLinearExtension seq1 = true) (hl2 : c.isLinearExtension seq2 = true)
+    (d1 d2 : Det) (script1 script2 : List Bool) (s1 s2 : RunState)
+    (h1 : stabRun c.ne c.np d1 script1 ((c.sops seq1).map Commute.toCOp) = some s1)
+    (h2 : stabRun c.ne c.np d2 script2 ((c.sops seq2).map Commute.toCOp) = some s2)
+    (hout : Commute.feed c.ne c.np (c.sops seq1) s1.outs (fun _ => []) =
+      Commute.feed c.ne c.np (c.sops seq2) s2.outs (fun _ => [])) :
+    ∀ P, TabSpec.Grp s1.t P ↔ TabSpec.Grp s2.t P := by
+  have r1 := (Commute.stabRun_refines c hgood har seq1 d1 script1 s1 h1).2 (fun _ => [])
+  have r2 := (Commute.stabRun_refines c hgood har seq2 d2 script2 s2 h2).2 (fun _ => [])
+  have e := compile_independent_of_topological_order_stab c.ne c.np c hgood seq1 seq2 hl1 hl2
+    (Commute.GSt.init c.ne c.np (Commute.feed c.ne c.np (c.sops seq1) s1.outs (fun _ => [])))
+  have e' := congrArg Subtype.val e
+  rw [Commute.runSeq_appG_val, Commute.runSeq_appG_val] at e'
+  have e'' : some (TabSpec.gstate s1.t, (fun _ => [] : Commute.Script)) = some (TabSpec.gstate s2.t, fun _ => []) := by
+    rw [← r1, ← r2, ← hout]; exact e'
+  simp only [Option.some.injEq, Prod.mk.injEq, and_true] at e''
+  intro P
+  show (TabSpec.gstate s1.t).G P ↔ (TabSpec.gstate s2.t).G P
+  rw [e'']
+
+/-- for any finite chain of the five rewrites (`Commute.RewritesStar`) —
+    **the tableau the stabilizer backend compiles a rewritten circuit to**: the original and the copied / unwrapped /
+    grouped / identity-free / empty-noise-map circuit, each compiled along any topological order under any measurement
+    setting, with every measuring operation recording the same outcome in both runs, end in tableaux with the same signed
+    stabilizer group -/
+theorem rewrite_chain_preserves_compiled_tableau (c c' : Circuit) (hgood : c.Good) (har : Commute.ArityOk c) (h : Commute.RewritesStar c c')
+    (seq seq' : List Nat) (hl : c.isLinearExtension seq = true) (hl' : c'.isLinearExtension seq' = true)
+    (d d' : Det) (script script' : List Bool) (s s' : RunState)
+    (h1 : stabRun c.ne c.np d script ((c.sops seq).map Commute.toCOp) = some s)
+    (h2 : stabRun c'.ne c'.np d' script' ((c'.sops seq').map Commute.toCOp) = some s')
+    (hout : Commute.feed c.ne c.np (c.sops seq) s.outs (fun _ => []) =
+      Commute.feed c'.ne c'.np (c'.sops seq') s'.outs (fun _ => [])) :
+    ∀ P, TabSpec.Grp s.t P ↔ TabSpec.Grp s'.t P := by
+  have hflat := h.flat_eq hgood
+  have hne : c'.ne = c.ne := by simp only [Circuit.flat, Prod.mk.injEq] at hflat; exact hflat.1
+  have hnp : c'.np = c.np := by simp only [Circuit.flat, Prod.mk.injEq] at hflat; exact hflat.2.1
+  have r1 := (Commute.stabRun_refines c hgood har seq d script s h1).2 (fun _ => [])
+  have r2 := (Commute.stabRun_refines c' (h.good hgood) (h.arityOk hgood har) seq' d' script' s' h2).2
+    (fun _ => [])
+  rw [hne, hnp] at r2
+  rw [hne, hnp] at hout
+  have e := rewrite_chain_preserves_compiled_group c c' hgood h seq seq' hl hl'
+    (Commute.feed c.ne c.np (c.sops seq) s.outs (fun _ => []))
+  have e'' : some (TabSpec.gstate s.t, (fun _ => [] : Commute.Script)) = some (TabSpec.gstate s'.t, fun _ => []) := by
+    rw [← r1, ← r2, ← hout]; exact e.symm
+  simp only [Option.some.injEq, Prod.mk.injEq, and_true] at e''
+  intro P
+  show (TabSpec.gstate s.t).G P ↔ (TabSpec.gstate s'.t).G P
+  rw [e'']
+
+/-- **the tableau the stabilizer backend compiles a rewritten circuit to**: the original and the copied / unwrapped /
+    grouped / identity-free / empty-noise-map circuit, each compiled along any topological order under any measurement
+    setting, with every measuring operation recording the same outcome in both runs, end in tableaux with the same signed
+    stabilizer group -/
+theorem rewrite_preserves_compiled_tableau (c c' : Circuit) (hgood : c.Good) (har : Commute.ArityOk c) (h : Rewrites c c')
+    (seq seq' : List Nat) (hl : c.isLinearExtension seq = true) (hl' : c'.isLinearExtension seq' = true)
+    (d d' : Det) (script script' : List Bool) (s s' : RunState)
+    (h1 : stabRun c.ne c.np d script ((c.sops seq).map Commute.toCOp) = some s)
+    (h2 : stabRun c'.ne c'.np d' script' ((c'.sops seq').map Commute.toCOp) = some s')
+    (hout : Commute.feed c.ne c.np (c.sops seq) s.outs (fun _ => []) =
+      Commute.feed c'.ne c'.np (c'.sops seq') s'.outs (fun _ => [])) :
+    ∀ P, TabSpec.Grp s.t P ↔ TabSpec.Grp s'.t P :=
+  rewrite_chain_preserves_compiled_tableau c c' hgood har (Commute.RewritesStar.single h)
+    seq seq' hl hl' d d' script script' s s' h1 h2 hout
+
+/-- **for every run along one topological order there is a run along any other one that records the same outcome at every
+    measuring operation, and it ends in the same stabilizer group** — so the hypothesis `hout` of
+    `compiled_tableau_independent_of_topological_order` can always be met: given a run of the compile loop along `seq1`
+    (any measurement setting), the loop along `seq2` in probabilistic mode, under a suitable script of drawn bits, records
+    the same per-register outcome streams and ends in a tableau with the same signed stabilizer group -/
+theorem compiled_run_exists_in_every_topological_order (c : Circuit) (hgood : c.Good) (har : Commute.ArityOk c)
+    (seq1 seq2 : List Nat) (hl1 : c.isLinearExtension seq1 = true) (hl2 : c.isLinearExtension seq2 = true)
+    (d1 : Det) (script1 : List Bool) (s1 : RunState)
+    (h1 : stabRun c.ne c.np d1 script1 ((c.sops seq1).map Commute.toCOp) = some s1) :
+    ∃ (script2 : List Bool) (s2 : RunState),
+      stabRun c.ne c.np .prob script2 ((c.sops seq2).map Commute.toCOp) = some s2 ∧
+      Commute.feed c.ne c.np (c.sops seq1) s1.outs (fun _ => []) =
+        Commute.feed c.ne c.np (c.sops seq2) s2.outs (fun _ => []) ∧
+      ∀ P, TabSpec.Grp s1.t P ↔ TabSpec.Grp s2.t P := by
+  have r1 := (Commute.stabRun_refines c hgood har seq1 d1 script1 s1 h1).2 (fun _ => [])
+  have e := compile_independent_of_topological_order_stab c.ne c.np c hgood seq1 seq2 hl1 hl2
+    (Commute.GSt.init c.ne c.np (Commute.feed c.ne c.np (c.sops seq1) s1.outs (fun _ => [])))
+  have e' := congrArg Subtype.val e
+  rw [Commute.runSeq_appG_val, Commute.runSeq_appG_val] at e'
+  have e2 : runSeq (Commute.appRaw c.ne c.np) (c.sops seq2) (some (TabSpec.gstate (Tab.ket0 (c.ne + c.np)),
+      Commute.feed c.ne c.np (c.sops seq1) s1.outs (fun _ => []))) = some (TabSpec.gstate s1.t, fun _ => []) := by
+    rw [← r1]; exact e'.symm
+  obtain ⟨script2, s2, hs2, hg, hF⟩ := Commute.stabRun_complete c hgood har seq2 _ _ e2
+  refine ⟨script2, s2, hs2, hF, fun P => ?_⟩
+  show (TabSpec.gstate s1.t).G P ↔ (TabSpec.gstate s2.t).G P
+  rw [hg]
+
+/-- for any finite chain of the five rewrites (`Commute.RewritesStar`) —
+    the same for the rewrites: for every run of the compile loop on the original circuit there is a run on the copied /
+    unwrapped / grouped / identity-free / empty-noise-map circuit (any topological orders) that records the same outcome at
+    every measuring operation and ends in the same signed stabilizer group -/
+theorem compiled_run_exists_after_rewrite_chain (c c' : Circuit) (hgood : c.Good) (har : Commute.ArityOk c) (h : Commute.RewritesStar c c')
+    (seq seq' : List Nat) (hl : c.isLinearExtension seq = true) (hl' : c'.isLinearExtension seq' = true)
+    (d : Det) (script : List Bool) (s : RunState)
+    (h1 : stabRun c.ne c.np d script ((c.sops seq).map Commute.toCOp) = some s) :
+    ∃ (script' : List Bool) (s' : RunState),
+      stabRun c'.ne c'.np .prob script' ((c'.sops seq').map Commute.toCOp) = some s' ∧
+      Commute.feed c.ne c.np (c.sops seq) s.outs (fun _ => []) =
+        Commute.feed c'.ne c'.np (c'.sops seq') s'.outs (fun _ => []) ∧
+      ∀ P, TabSpec.Grp s.t P ↔ TabSpec.Grp s'.t P := by
+  have hflat := h.flat_eq hgood
+  have hne : c'.ne = c.ne := by simp only [Circuit.flat, Prod.mk.injEq] at hflat; exact hflat.1
+  have hnp : c'.np = c.np := by simp only [Circuit.flat, Prod.mk.injEq] at hflat; exact hflat.2.1
+  have r1 := (Commute.stabRun_refines c hgood har seq d script s h1).2 (fun _ => [])
+  have e := rewrite_chain_preserves_compiled_group c c' hgood h seq seq' hl hl'
+    (Commute.feed c.ne c.np (c.sops seq) s.outs (fun _ => []))
+  rw [r1, ← hne, ← hnp] at e
+  obtain ⟨script', s', hs', hg, hF⟩ := Commute.stabRun_complete c' (h.good hgood) (h.arityOk hgood har)
+    seq' _ _ e
+  refine ⟨script', s', hs', ?_, fun P => ?_⟩
+  · rw [← hF, hne, hnp]
+  · show (TabSpec.gstate s.t).G P ↔ (TabSpec.gstate s'.t).G P
+    rw [hg]
+
+/-- the same for the rewrites: for every run of the compile loop on the original circuit there is a run on the copied /
+    unwrapped / grouped / identity-free / empty-noise-map circuit (any topological orders) that records the same outcome at
+    every measuring operation and ends in the same signed stabilizer group -/
+theorem compiled_run_exists_after_rewrite (c c' : Circuit) (hgood : c.Good) (har : Commute.ArityOk c) (h : Rewrites c c')
+    (seq seq' : List Nat) (hl : c.isLinearExtension seq = true) (hl' : c'.isLinearExtension seq' = true)
+    (d : Det) (script : List Bool) (s : RunState)
+    (h1 : stabRun c.ne c.np d script ((c.sops seq).map Commute.toCOp) = some s) :
+    ∃ (script' : List Bool) (s' : RunState),
+      stabRun c'.ne c'.np .prob script' ((c'.sops seq').map Commute.toCOp) = some s' ∧
+      Commute.feed c.ne c.np (c.sops seq) s.outs (fun _ => []) =
+        Commute.feed c'.ne c'.np (c'.sops seq') s'.outs (fun _ => []) ∧
+      ∀ P, TabSpec.Grp s.t P ↔ TabSpec.Grp s'.t P :=
+  compiled_run_exists_after_rewrite_chain c c' hgood har (Commute.RewritesStar.single h) seq seq' hl hl' d script s h1
+
+/-- the same from an arbitrary valid initial tableau (`compile(circuit, initial_state)`): two runs of the compile loop from
+    `t0` along two linear extensions in which every measuring operation recorded the same outcome end in the same signed
+    stabilizer group; and for every run along `seq1` such a run along `seq2` exists (probabilistic mode, some script) -/
+theorem compiled_tableau_independent_of_topological_order_from (c : Circuit) (hgood : c.Good) (har : Commute.ArityOk c)
+    (seq1 seq2 : List Nat) (hl1 : c.isLinearExtension seq1 = true) (hl2 : c.isLinearExtension seq2 = true)
+    (t0 : Tab) (hv : t0.Valid) (hr : t0.StabReal) (hn : t0.n = c.ne + c.np)
+    (d1 : Det) (script1 : List Bool) (s1 : RunState)
+    (h1 : stabRunFrom t0 c.np d1 script1 ((c.sops seq1).map Commute.toCOp) = some s1) :
+    (∀ (d2 : Det) (script2 : List Bool) (s2 : RunState),
+      stabRunFrom t0 c.np d2 script2 ((c.sops seq2).map Commute.toCOp) = some s2 →
+      Commute.feed c.ne c.np (c.sops seq1) s1.outs (fun _ => []) =
+        Commute.feed c.ne c.np (c.sops seq2) s2.outs (fun _ => []) →
+      ∀ P, TabSpec.Grp s1.t P ↔ TabSpec.Grp s2.t P) ∧
+    ∃ (script2 : List Bool) (s2 : RunState),
+      stabRunFrom t0 c.np .prob script2 ((c.sops seq2).map Commute.toCOp) = some s2 ∧
+      Commute.feed c.ne c.np (c.sops seq1) s1.outs (fun _ => []) =
+        Commute.feed c.ne c.np (c.sops seq2) s2.outs (fun _ => []) := by
+  have h0 : Commute.TInv (c.ne + c.np) t0 := ⟨hv, hr, hn⟩
+  have r1 := (Commute.stabRunFrom_refines c hgood har seq1 t0 h0 d1 script1 s1 h1).2 (fun _ => [])
+  have e := compile_independent_of_topological_order_stab c.ne c.np c hgood seq1 seq2 hl1 hl2
+    (Commute.GSt.ofTab c.ne c.np t0 h0 (Commute.feed c.ne c.np (c.sops seq1) s1.outs (fun _ => [])))
+  have e' := congrArg Subtype.val e
+  rw [Commute.runSeq_appG_val, Commute.runSeq_appG_val] at e'
+  have e2 : runSeq (Commute.appRaw c.ne c.np) (c.sops seq2) (some (TabSpec.gstate t0,
+      Commute.feed c.ne c.np (c.sops seq1) s1.outs (fun _ => []))) = some (TabSpec.gstate s1.t, fun _ => []) := by
+    rw [← r1]; exact e'.symm
+  refine ⟨fun d2 script2 s2 h2 hout P => ?_, ?_⟩
+  · have r2 := (Commute.stabRunFrom_refines c hgood har seq2 t0 h0 d2 script2 s2 h2).2 (fun _ => [])
+    rw [← hout, e2] at r2
+    simp only [Option.some.injEq, Prod.mk.injEq, and_true] at r2
+    show (TabSpec.gstate s1.t).G P ↔ (TabSpec.gstate s2.t).G P
+    rw [r2]
+  · obtain ⟨script2, s2, hs2, _, hF⟩ := Commute.stabRunFrom_complete c hgood har seq2 t0 h0 _ _ e2
+    exact ⟨script2, s2, hs2, hF⟩
+
+/-! ## 2d. gate-only circuits: literally the same tableau
+
+  For circuits without measurements the statement holds for the *tables*, not only for the groups they generate: the row
+  maps of gates on disjoint qubits commute pointwise and the compiler's tabulation identifies tables that agree on the
+  qubits' sites. -/
+
+/-- unitary-gate steps of the stabilizer compile loop on disjoint registers commute literally (same run state, same table,
+    destabilizers included) -/
+theorem gate_steps_on_disjoint_registers_commute (ne np : Nat) (a b : SOp) (h : ∀ r, r ∈ a.regs → r ∉ b.regs)
+    (s : Commute.TSt ne np) :
+    Commute.appTG ne np a (Commute.appTG ne np b s) = Commute.appTG ne np b (Commute.appTG ne np a s) :=
+  Commute.appTG_comm ne np a b h s
+
+/-- **a gate-only circuit compiles to literally the same run state (the same Clifford tableau, destabilizer and
+    stabilizer rows and signs, entry by entry) along every topological order** -/
+theorem gate_only_compile_independent_of_topological_order (c : Circuit) (hgood : c.Good) (har : Commute.ArityOk c)
+    (hgates : Commute.GateOnly c) (seq1 seq2 : List Nat) (hl1 : c.isLinearExtension seq1 = true)
+    (hl2 : c.isLinearExtension seq2 = true) (d : Det) (script : List Bool) :
+    stabRun c.ne c.np d script ((c.sops seq1).map Commute.toCOp) =
+      stabRun c.ne c.np d script ((c.sops seq2).map Commute.toCOp) := by
+  rw [Commute.stabRun_eq_runSeq c hgood har hgates seq1 d script c.ne c.np rfl rfl,
+    Commute.stabRun_eq_runSeq c hgood har hgates seq2 d script c.ne c.np rfl rfl]
+  have e := compile_independent_of_topological_order (Commute.appTG c.ne c.np) (Commute.appTG_comm c.ne c.np) c hgood
+    seq1 seq2 hl1 hl2 ⟨some { t := Tab.ket0 (c.ne + c.np), writes := [], script := script, rand := [], outs := [] },
+      fun s' h => by cases h; rfl⟩
+  have e' := congrArg Subtype.val e
+  exact (Commute.runSeq_appTG_val _ _ _ _).symm.trans (e'.trans (Commute.runSeq_appTG_val _ _ _ _))
+
+/-- for any finite chain of the five rewrites (`Commute.RewritesStar`) —
+    **a gate-only circuit and its copy / unwrapped / grouped / identity-free / empty-noise-map version compile to literally
+    the same run state**, whatever topological orders the two compilations use -/
+theorem gate_only_rewrite_chain_preserves_compiled_tableau (c c' : Circuit) (hgood : c.Good) (har : Commute.ArityOk c)
+    (hgates : Commute.GateOnly c) (h : Commute.RewritesStar c c') (seq seq' : List Nat) (hl : c.isLinearExtension seq = true)
+    (hl' : c'.isLinearExtension seq' = true) (d : Det) (script : List Bool) :
+    stabRun c'.ne c'.np d script ((c'.sops seq').map Commute.toCOp) =
+      stabRun c.ne c.np d script ((c.sops seq).map Commute.toCOp) := by
+  have hflat := h.flat_eq hgood
+  have hne : c.ne = c'.ne := by simp only [Circuit.flat, Prod.mk.injEq] at hflat; exact hflat.1.symm
+  have hnp : c.np = c'.np := by simp only [Circuit.flat, Prod.mk.injEq] at hflat; exact hflat.2.1.symm
+  rw [← hne, ← hnp,
+    Commute.stabRun_eq_runSeq c' (h.good hgood) (h.arityOk hgood har)
+      (h.gateOnly hgood hgates) seq' d script c.ne c.np hne hnp,
+    Commute.stabRun_eq_runSeq c hgood har hgates seq d script c.ne c.np rfl rfl]
+  have e := rewrite_chain_preserves_compiled_state (Commute.appTG c.ne c.np) (Commute.appTG_comm c.ne c.np) c c' hgood h
+    seq seq' hl hl' ⟨some { t := Tab.ket0 (c.ne + c.np), writes := [], script := script, rand := [], outs := [] },
+      fun s' h => by cases h; rfl⟩
+  have e' := congrArg Subtype.val e
+  exact (Commute.runSeq_appTG_val _ _ _ _).symm.trans (e'.trans (Commute.runSeq_appTG_val _ _ _ _))
+
+/-- **a gate-only circuit and its copy / unwrapped / grouped / identity-free / empty-noise-map version compile to literally
+    the same run state**, whatever topological orders the two compilations use -/
+theorem gate_only_rewrite_preserves_compiled_tableau (c c' : Circuit) (hgood : c.Good) (har : Commute.ArityOk c)
+    (hgates : Commute.GateOnly c) (h : Rewrites c c') (seq seq' : List Nat) (hl : c.isLinearExtension seq = true)
+    (hl' : c'.isLinearExtension seq' = true) (d : Det) (script : List Bool) :
+    stabRun c'.ne c'.np d script ((c'.sops seq').map Commute.toCOp) =
+      stabRun c.ne c.np d script ((c.sops seq).map Commute.toCOp) :=
+  gate_only_rewrite_chain_preserves_compiled_tableau c c' hgood har hgates (Commute.RewritesStar.single h)
+    seq seq' hl hl' d script
+
+/-! ## 2e. the classical record
+
+  The classical registers are part of the state in `Commute.appC`: a measuring operation writes its outcome into its
+  classical register.  Two measuring operations on different qubits that write the *same* classical register do not
+  commute (the later write wins) — they are ordered by the classical wire.  `add` threads every operation on the wires of
+  its classical registers; `insert_at` need not, and then the final register values genuinely depend on the order
+  `topological_sort` returns (the quantum state does not: §2b).  Hence the hypothesis `CThreaded`. -/
+
+/-- operations on disjoint quantum registers that do not write the same classical register commute, record included -/
+theorem stabilizer_ops_commute_with_record (ne np : Nat) (a b : SOp) (h : ∀ r, r ∈ Commute.regsC a → r ∉ Commute.regsC b)
+    (s : Commute.CSt ne np) :
+    Commute.appC ne np a (Commute.appC ne np b s) = Commute.appC ne np b (Commute.appC ne np a s) :=
+  Commute.appC_comm ne np a b h s
+
+/-- **stabilizer state and classical record do not depend on the topological order**, for every sane circuit whose
+    measuring operations lie on the classical wire of the register they write -/
+theorem compile_with_record_independent_of_topological_order_stab (ne np : Nat) (c : Circuit) (hgood : c.Good)
+    (hthr : Commute.CThreaded c) (hca : Commute.CArity c) (seq1 seq2 : List Nat)
+    (hl1 : c.isLinearExtension seq1 = true) (hl2 : c.isLinearExtension seq2 = true) (s : Commute.CSt ne np) :
+    runSeq (Commute.appC ne np) (c.sops seq1) s = runSeq (Commute.appC ne np) (c.sops seq2) s :=
+  same_wires_same_state Commute.regsC (Commute.appC ne np) (Commute.appC_comm ne np) (c.sops seq1) (c.sops seq2)
+    (Commute.regsC_ne_nil c hgood seq1) (Commute.regsC_ne_nil c hgood seq2)
+    (Commute.proj_regsC_eq c hgood hthr hca seq1 seq2 hl1 hl2) s
+
+/-- **the classical registers the stabilizer backend ends with do not depend on the topological order**: two runs of the
+    compile loop on the same sane, classically threaded circuit along two linear extensions in which every measuring
+    operation recorded the same outcome end with the same signed stabilizer group *and* the same final register values -/
+theorem compiled_record_independent_of_topological_order (c : Circuit) (hgood : c.Good) (har : Commute.ArityOk c)
+    (hthr : Commute.CThreaded c) (hca : Commute.CArity c)
+    (seq1 seq2 : List Nat) (hl1 : c.isLinearExtension seq1 = true) (hl2 : c.isLinearExtension seq2 = true)
+    (d1 d2 : Det) (script1 script2 : List Bool) (s1 s2 : RunState)
+    (h1 : stabRun c.ne c.np d1 script1 ((c.sops seq1).map Commute.toCOp) = some s1)
+    (h2 : stabRun c.ne c.np d2 script2 ((c.sops seq2).map Commute.toCOp) = some s2)
+    (hout : Commute.feed c.ne c.np (c.sops seq1) s1.outs (fun _ => []) =
+      Commute.feed c.ne c.np (c.sops seq2) s2.outs (fun _ => [])) :
+    (∀ P, TabSpec.Grp s1.t P ↔ TabSpec.Grp s2.t P) ∧ finalRecord c.nc s1.writes = finalRecord c.nc s2.writes := by
+  have r1 := Commute.stabRun_refines_record c hgood har seq1 d1 script1 s1 h1 (fun _ => [])
+  have r2 := Commute.stabRun_refines_record c hgood har seq2 d2 script2 s2 h2 (fun _ => [])
+  have e := compile_with_record_independent_of_topological_order_stab c.ne c.np c hgood hthr hca seq1 seq2 hl1 hl2
+    (Commute.CSt.init c.ne c.np (Commute.feed c.ne c.np (c.sops seq1) s1.outs (fun _ => [])))
+  have e' := congrArg Subtype.val e
+  have e'' := (Commute.runSeq_appC_val _ _ _ _).symm.trans (e'.trans (Commute.runSeq_appC_val _ _ _ _))
+  have e3 : some (TabSpec.gstate s1.t, (fun _ => [] : Commute.Script), Commute.recOf s1.writes) =
+      some (TabSpec.gstate s2.t, (fun _ => [] : Commute.Script), Commute.recOf s2.writes) := by
+    rw [← r1, ← r2, ← hout]; exact e''
+  simp only [Option.some.injEq, Prod.mk.injEq, true_and] at e3
+  refine ⟨fun P => ?_, ?_⟩
+  · show (TabSpec.gstate s1.t).G P ↔ (TabSpec.gstate s2.t).G P
+    rw [e3.1]
+  · rw [Commute.finalRecord_eq, Commute.finalRecord_eq, e3.2]
+
+/-- for any finite chain of the five rewrites (`Commute.RewritesStar`) —
+    **the rewrites preserve stabilizer state and classical record**: for a sane circuit whose measuring operations lie on the
+    classical wire they write, every rewrite keeps the operations on every classical wire (`Commute.Rewrites.cflat`), so the
+    rewritten circuit, along any of its topological orders, gives the same state of the semantics with record -/
+theorem rewrite_chain_preserves_state_and_record_stab (ne np : Nat) (c c' : Circuit) (hgood : c.Good) (hthr : Commute.CThreaded c)
+    (hca : Commute.CArity c) (h : Commute.RewritesStar c c') (seq seq' : List Nat) (hl : c.isLinearExtension seq = true)
+    (hl' : c'.isLinearExtension seq' = true) (s : Commute.CSt ne np) :
+    runSeq (Commute.appC ne np) (c'.sops seq') s = runSeq (Commute.appC ne np) (c.sops seq) s :=
+  same_wires_same_state Commute.regsC (Commute.appC ne np) (Commute.appC_comm ne np) (c'.sops seq') (c.sops seq)
+    (Commute.regsC_ne_nil c' (h.good hgood) seq') (Commute.regsC_ne_nil c hgood seq)
+    (Commute.chain_proj_regsC_eq c c' hgood hthr hca h seq seq' hl hl') s
+
+/-- **the rewrites preserve stabilizer state and classical record**: for a sane circuit whose measuring operations lie on the
+    classical wire they write, every rewrite keeps the operations on every classical wire (`Commute.Rewrites.cflat`), so the
+    rewritten circuit, along any of its topological orders, gives the same state of the semantics with record -/
+theorem rewrite_preserves_state_and_record_stab (ne np : Nat) (c c' : Circuit) (hgood : c.Good) (hthr : Commute.CThreaded c)
+    (hca : Commute.CArity c) (h : Rewrites c c') (seq seq' : List Nat) (hl : c.isLinearExtension seq = true)
+    (hl' : c'.isLinearExtension seq' = true) (s : Commute.CSt ne np) :
+    runSeq (Commute.appC ne np) (c'.sops seq') s = runSeq (Commute.appC ne np) (c.sops seq) s :=
+  rewrite_chain_preserves_state_and_record_stab ne np c c' hgood hthr hca (Commute.RewritesStar.single h) seq seq' hl hl' s
+
+/-- for any finite chain of the five rewrites (`Commute.RewritesStar`) —
+    **the classical registers the stabilizer backend ends with are preserved by the rewrites**: original and rewritten
+    circuit, any topological orders, any measurement settings, every measuring operation recording the same outcome in both
+    runs ⇒ same signed stabilizer group and the same final register values -/
+theorem rewrite_chain_preserves_compiled_record (c c' : Circuit) (hgood : c.Good) (har : Commute.ArityOk c)
+    (hthr : Commute.CThreaded c) (hca : Commute.CArity c) (h : Commute.RewritesStar c c')
+    (seq seq' : List Nat) (hl : c.isLinearExtension seq = true) (hl' : c'.isLinearExtension seq' = true)
+    (d d' : Det) (script script' : List Bool) (s s' : RunState)
+    (h1 : stabRun c.ne c.np d script ((c.sops seq).map Commute.toCOp) = some s)
+    (h2 : stabRun c'.ne c'.np d' script' ((c'.sops seq').map Commute.toCOp) = some s')
+    (hout : Commute.feed c.ne c.np (c.sops seq) s.outs (fun _ => []) =
+      Commute.feed c'.ne c'.np (c'.sops seq') s'.outs (fun _ => [])) :
+    (∀ P, TabSpec.Grp s.t P ↔ TabSpec.Grp s'.t P) ∧ finalRecord c.nc s.writes = finalRecord c'.nc s'.writes := by
+  have hflat := h.flat_eq hgood
+  have hne : c'.ne = c.ne := by simp only [Circuit.flat, Prod.mk.injEq] at hflat; exact hflat.1
+  have hnp : c'.np = c.np := by simp only [Circuit.flat, Prod.mk.injEq] at hflat; exact hflat.2.1
+  have hnc : c'.nc = c.nc := flat_nc hflat
+  have r1 := Commute.stabRun_refines_record c hgood har seq d script s h1 (fun _ => [])
+  have r2 := Commute.stabRun_refines_record c' (h.good hgood) (h.arityOk hgood har) seq' d' script' s' h2
+    (fun _ => [])
+  rw [hne, hnp] at r2
+  rw [hne, hnp] at hout
+  have e := rewrite_chain_preserves_state_and_record_stab c.ne c.np c c' hgood hthr hca h seq seq' hl hl'
+    (Commute.CSt.init c.ne c.np (Commute.feed c.ne c.np (c.sops seq) s.outs (fun _ => [])))
+  have e' := congrArg Subtype.val e
+  have e'' := (Commute.runSeq_appC_val _ _ _ _).symm.trans (e'.trans (Commute.runSeq_appC_val _ _ _ _))
+  have e3 : some (TabSpec.gstate s'.t, (fun _ => [] : Commute.Script), Commute.recOf s'.writes) =
+      some (TabSpec.gstate s.t, (fun _ => [] : Commute.Script), Commute.recOf s.writes) := by
+    rw [← r1, ← r2, ← hout]; exact e''
+  simp only [Option.some.injEq, Prod.mk.injEq, true_and] at e3
+  refine ⟨fun P => ?_, ?_⟩
+  · show (TabSpec.gstate s.t).G P ↔ (TabSpec.gstate s'.t).G P
+    rw [e3.1]
+  · rw [Commute.finalRecord_eq, Commute.finalRecord_eq, e3.2, hnc]
+
+/-- **the classical registers the stabilizer backend ends with are preserved by the rewrites**: original and rewritten
+    circuit, any topological orders, any measurement settings, every measuring operation recording the same outcome in both
+    runs ⇒ same signed stabilizer group and the same final register values -/
+theorem rewrite_preserves_compiled_record (c c' : Circuit) (hgood : c.Good) (har : Commute.ArityOk c)
+    (hthr : Commute.CThreaded c) (hca : Commute.CArity c) (h : Rewrites c c')
+    (seq seq' : List Nat) (hl : c.isLinearExtension seq = true) (hl' : c'.isLinearExtension seq' = true)
+    (d d' : Det) (script script' : List Bool) (s s' : RunState)
+    (h1 : stabRun c.ne c.np d script ((c.sops seq).map Commute.toCOp) = some s)
+    (h2 : stabRun c'.ne c'.np d' script' ((c'.sops seq').map Commute.toCOp) = some s')
+    (hout : Commute.feed c.ne c.np (c.sops seq) s.outs (fun _ => []) =
+      Commute.feed c'.ne c'.np (c'.sops seq') s'.outs (fun _ => [])) :
+    (∀ P, TabSpec.Grp s.t P ↔ TabSpec.Grp s'.t P) ∧ finalRecord c.nc s.writes = finalRecord c'.nc s'.writes :=
+  rewrite_chain_preserves_compiled_record c c' hgood har hthr hca (Commute.RewritesStar.single h)
+    seq seq' hl hl' d d' script script' s s' h1 h2 hout
+
+/-! ## 2e′. the probability of the outcome assignment
+
+  A Z measurement of a stabilizer state is deterministic (the feasible outcome has probability 1) or random (each outcome has
+  probability ½ — C07 `measurement_random_is_projection`); an outcome assignment therefore has probability `2^(-r)`, `r` the
+  number of measurements that were random when executed (`RunState.rand`).  `r` does not depend on the order either. -/
+
+/-- operations on disjoint quantum registers commute, the count of random measurements included -/
+theorem stabilizer_ops_commute_with_random_count (ne np : Nat) (a b : SOp) (h : ∀ r, r ∈ a.regs → r ∉ b.regs)
+    (s : Commute.RSt ne np) :
+    Commute.appR ne np a (Commute.appR ne np b s) = Commute.appR ne np b (Commute.appR ne np a s) :=
+  Commute.appR_comm ne np a b h s
+
+/-- **the probability of the recorded outcomes does not depend on the topological order**: two runs of the compile loop on
+    the same sane circuit along two linear extensions in which every measuring operation recorded the same outcome found
+    the same number of measurements random (and ended in the same signed stabilizer group) -/
+theorem compiled_outcome_probability_independent_of_topological_order (c : Circuit) (hgood : c.Good)
+    (har : Commute.ArityOk c) (seq1 seq2 : List Nat) (hl1 : c.isLinearExtension seq1 = true)
+    (hl2 : c.isLinearExtension seq2 = true) (d1 d2 : Det) (script1 script2 : List Bool) (s1 s2 : RunState)
+    (h1 : stabRun c.ne c.np d1 script1 ((c.sops seq1).map Commute.toCOp) = some s1)
+    (h2 : stabRun c.ne c.np d2 script2 ((c.sops seq2).map Commute.toCOp) = some s2)
+    (hout : Commute.feed c.ne c.np (c.sops seq1) s1.outs (fun _ => []) =
+      Commute.feed c.ne c.np (c.sops seq2) s2.outs (fun _ => [])) :
+    s1.rand.count true = s2.rand.count true := by
+  have r1 := Commute.stabRun_refines_rand c hgood har seq1 d1 script1 s1 h1 (fun _ => [])
+  have r2 := Commute.stabRun_refines_rand c hgood har seq2 d2 script2 s2 h2 (fun _ => [])
+  have e := compile_independent_of_topological_order (Commute.appR c.ne c.np) (Commute.appR_comm c.ne c.np) c hgood
+    seq1 seq2 hl1 hl2 (Commute.RSt.init c.ne c.np (Commute.feed c.ne c.np (c.sops seq1) s1.outs (fun _ => [])))
+  have e' := congrArg Subtype.val e
+  have e'' := (Commute.runSeq_appR_val _ _ _ _).symm.trans (e'.trans (Commute.runSeq_appR_val _ _ _ _))
+  have e3 : some (TabSpec.gstate s1.t, (fun _ => [] : Commute.Script), s1.rand.count true) =
+      some (TabSpec.gstate s2.t, (fun _ => [] : Commute.Script), s2.rand.count true) := by
+    rw [← r1, ← r2, ← hout]; exact e''
+  simp only [Option.some.injEq, Prod.mk.injEq, true_and] at e3
+  exact e3.2
+
+/-- for any finite chain of the five rewrites (`Commute.RewritesStar`) —
+    the same for the rewrites: original and rewritten circuit, same outcome at every measuring operation ⇒ the same number
+    of random measurements, i.e. the same probability of that outcome assignment -/
+theorem rewrite_chain_preserves_outcome_probability (c c' : Circuit) (hgood : c.Good) (har : Commute.ArityOk c)
+    (h : Commute.RewritesStar c c') (seq seq' : List Nat) (hl : c.isLinearExtension seq = true)
+    (hl' : c'.isLinearExtension seq' = true) (d d' : Det) (script script' : List Bool) (s s' : RunState)
+    (h1 : stabRun c.ne c.np d script ((c.sops seq).map Commute.toCOp) = some s)
+    (h2 : stabRun c'.ne c'.np d' script' ((c'.sops seq').map Commute.toCOp) = some s')
+    (hout : Commute.feed c.ne c.np (c.sops seq) s.outs (fun _ => []) =
+      Commute.feed c'.ne c'.np (c'.sops seq') s'.outs (fun _ => [])) :
+    s.rand.count true = s'.rand.count true := by
+  have hflat := h.flat_eq hgood
+  have hne : c'.ne = c.ne := by simp only [Circuit.flat, Prod.mk.injEq] at hflat; exact hflat.1
+  have hnp : c'.np = c.np := by simp only [Circuit.flat, Prod.mk.injEq] at hflat; exact hflat.2.1
+  have r1 := Commute.stabRun_refines_rand c hgood har seq d script s h1 (fun _ => [])
+  have r2 := Commute.stabRun_refines_rand c' (h.good hgood) (h.arityOk hgood har) seq' d' script' s' h2
+    (fun _ => [])
+  rw [hne, hnp] at r2
+  rw [hne, hnp] at hout
+  have e := rewrite_chain_preserves_compiled_state (Commute.appR c.ne c.np) (Commute.appR_comm c.ne c.np) c c' hgood h
+    seq seq' hl hl' (Commute.RSt.init c.ne c.np (Commute.feed c.ne c.np (c.sops seq) s.outs (fun _ => [])))
+  have e' := congrArg Subtype.val e
+  have e'' := (Commute.runSeq_appR_val _ _ _ _).symm.trans (e'.trans (Commute.runSeq_appR_val _ _ _ _))
+  have e3 : some (TabSpec.gstate s'.t, (fun _ => [] : Commute.Script), s'.rand.count true) =
+      some (TabSpec.gstate s.t, (fun _ => [] : Commute.Script), s.rand.count true) := by
+    rw [← r1, ← r2, ← hout]; exact e''
+  simp only [Option.some.injEq, Prod.mk.injEq, true_and] at e3
+  exact e3.2.symm
+
+/-- the same for the rewrites: original and rewritten circuit, same outcome at every measuring operation ⇒ the same number
+    of random measurements, i.e. the same probability of that outcome assignment -/
+theorem rewrite_preserves_outcome_probability (c c' : Circuit) (hgood : c.Good) (har : Commute.ArityOk c)
+    (h : Rewrites c c') (seq seq' : List Nat) (hl : c.isLinearExtension seq = true)
+    (hl' : c'.isLinearExtension seq' = true) (d d' : Det) (script script' : List Bool) (s s' : RunState)
+    (h1 : stabRun c.ne c.np d script ((c.sops seq).map Commute.toCOp) = some s)
+    (h2 : stabRun c'.ne c'.np d' script' ((c'.sops seq').map Commute.toCOp) = some s')
+    (hout : Commute.feed c.ne c.np (c.sops seq) s.outs (fun _ => []) =
+      Commute.feed c'.ne c'.np (c'.sops seq') s'.outs (fun _ => [])) :
+    s.rand.count true = s'.rand.count true :=
+  rewrite_chain_preserves_outcome_probability c c' hgood har (Commute.RewritesStar.single h)
+    seq seq' hl hl' d d' script script' s s' h1 h2 hout
+
+/-! ## 2f. read as quantum states
+
+  C07's Hilbert-space reading: `Hilbert.rho n (STab.ofTab t)` is the density matrix `∏ᵢ (1 + gᵢ)/2` (over ℂ, indexed by bit
+  strings) of the stabilizer state of the tableau `t`; tableaux with the same signed stabilizer group have the same density
+  matrix.  So the conclusions of §2c are equalities of quantum states. -/
+
+/-- **the quantum state the stabilizer backend compiles to does not depend on the topological order**: under the
+    hypotheses of `compiled_tableau_independent_of_topological_order` the two final tableaux denote the same density matrix -/
+theorem compiled_density_matrix_independent_of_topological_order (c : Circuit) (hgood : c.Good) (har : Commute.ArityOk c)
+    (seq1 seq2 : List Nat) (hl1 : c.isLinearExtension seq1 = true) (hl2 : c.isLinearExtension seq2 = true)
+    (d1 d2 : Det) (script1 script2 : List Bool) (s1 s2 : RunState)
+    (h1 : stabRun c.ne c.np d1 script1 ((c.sops seq1).map Commute.toCOp) = some s1)
+    (h2 : stabRun c.ne c.np d2 script2 ((c.sops seq2).map Commute.toCOp) = some s2)
+    (hout : Commute.feed c.ne c.np (c.sops seq1) s1.outs (fun _ => []) =
+      Commute.feed c.ne c.np (c.sops seq2) s2.outs (fun _ => [])) :
+    Hilbert.rho (c.ne + c.np) (STab.ofTab s1.t) = Hilbert.rho (c.ne + c.np) (STab.ofTab s2.t) :=
+  Commute.rho_eq_of_grp_eq (Commute.stabRun_refines c hgood har seq1 d1 script1 s1 h1).1
+    (Commute.stabRun_refines c hgood har seq2 d2 script2 s2 h2).1
+    (compiled_tableau_independent_of_topological_order c hgood har seq1 seq2 hl1 hl2 d1 d2 script1 script2 s1 s2 h1 h2 hout)
+
+/-- for any finite chain of the five rewrites (`Commute.RewritesStar`) —
+    **the rewrites preserve the quantum state the stabilizer backend compiles to**: under the hypotheses of
+    `rewrite_chain_preserves_compiled_tableau` the two final tableaux denote the same density matrix -/
+theorem rewrite_chain_preserves_compiled_density_matrix (c c' : Circuit) (hgood : c.Good) (har : Commute.ArityOk c)
+    (h : Commute.RewritesStar c c') (seq seq' : List Nat) (hl : c.isLinearExtension seq = true)
+    (hl' : c'.isLinearExtension seq' = true) (d d' : Det) (script script' : List Bool) (s s' : RunState)
+    (h1 : stabRun c.ne c.np d script ((c.sops seq).map Commute.toCOp) = some s)
+    (h2 : stabRun c'.ne c'.np d' script' ((c'.sops seq').map Commute.toCOp) = some s')
+    (hout : Commute.feed c.ne c.np (c.sops seq) s.outs (fun _ => []) =
+      Commute.feed c'.ne c'.np (c'.sops seq') s'.outs (fun _ => [])) :
+    Hilbert.rho (c.ne + c.np) (STab.ofTab s.t) = Hilbert.rho (c.ne + c.np) (STab.ofTab s'.t) := by
+  have hflat := h.flat_eq hgood
+  have hne : c'.ne = c.ne := by simp only [Circuit.flat, Prod.mk.injEq] at hflat; exact hflat.1
+  have hnp : c'.np = c.np := by simp only [Circuit.flat, Prod.mk.injEq] at hflat; exact hflat.2.1
+  have t2 := (Commute.stabRun_refines c' (h.good hgood) (h.arityOk hgood har) seq' d' script' s' h2).1
+  rw [hne, hnp] at t2
+  exact Commute.rho_eq_of_grp_eq (Commute.stabRun_refines c hgood har seq d script s h1).1 t2
+    (rewrite_chain_preserves_compiled_tableau c c' hgood har h seq seq' hl hl' d d' script script' s s' h1 h2 hout)
+
+/-- **the rewrites preserve the quantum state the stabilizer backend compiles to**: under the hypotheses of
+    `rewrite_preserves_compiled_tableau` the two final tableaux denote the same density matrix -/
+theorem rewrite_preserves_compiled_density_matrix (c c' : Circuit) (hgood : c.Good) (har : Commute.ArityOk c)
+    (h : Rewrites c c') (seq seq' : List Nat) (hl : c.isLinearExtension seq = true)
+    (hl' : c'.isLinearExtension seq' = true) (d d' : Det) (script script' : List Bool) (s s' : RunState)
+    (h1 : stabRun c.ne c.np d script ((c.sops seq).map Commute.toCOp) = some s)
+    (h2 : stabRun c'.ne c'.np d' script' ((c'.sops seq').map Commute.toCOp) = some s')
+    (hout : Commute.feed c.ne c.np (c.sops seq) s.outs (fun _ => []) =
+      Commute.feed c'.ne c'.np (c'.sops seq') s'.outs (fun _ => [])) :
+    Hilbert.rho (c.ne + c.np) (STab.ofTab s.t) = Hilbert.rho (c.ne + c.np) (STab.ofTab s'.t) :=
+  rewrite_chain_preserves_compiled_density_matrix c c' hgood har (Commute.RewritesStar.single h)
+    seq seq' hl hl' d d' script script' s s' h1 h2 hout
 
 /-! ## 3. library calls do not mutate their inputs -/
 
@@ -148,5 +763,164 @@ example : exC.Good := by
     | (intro r hr; simp only [List.mem_cons, List.not_mem_nil, or_false] at hr; rcases hr with rfl | rfl <;> decide)
 
 example : exC.wfB = true ∧ exC.acyclicB = true := by decide
+
+/-! ### non-vacuity of §2b / §2c: a measurement and a gate on another qubit, in two topological orders -/
+
+/-- `H e0 ; CNOT e0→p0 ; MeasurementZ p0→c0 ; H e0`: the last two operations act on different qubits -/
+def exD : Circuit :=
+  let ops : List Op := [⟨.base .H, [⟨.e, 0⟩], [], false⟩, ⟨.cnot, [⟨.e, 0⟩, ⟨.p, 0⟩], [], false⟩,
+    ⟨.measZ, [⟨.p, 0⟩], [0], false⟩, ⟨.base .H, [⟨.e, 0⟩], [], false⟩]
+  ops.foldl (fun c op => c.addCore op) (Circuit.empty 1 1 1)
+
+/-- two different compile sequences of the same circuit: the measurement of `p0` before / after the Hadamard on `e0` -/
+example : exD.isLinearExtension [1, 2, 3, 4] = true ∧ exD.isLinearExtension [1, 2, 4, 3] = true ∧
+    exD.sops [1, 2, 3, 4] ≠ exD.sops [1, 2, 4, 3] := by decide
+
+theorem exD_good : exD.Good := by
+  unfold exD
+  simp only [List.foldl_cons, List.foldl_nil]
+  repeat' (apply Good_addCore)
+  any_goals exact Good_empty 1 1 1
+  all_goals first
+    | (refine ⟨by decide, by decide, by decide, ?_⟩; intro _; exact ⟨⟨_, rfl⟩, rfl⟩)
+    | (refine ⟨by decide, by decide, by decide, ?_⟩; intro h; cases h)
+    | (intro r hr; simp only [List.mem_cons, List.not_mem_nil, or_false] at hr; rcases hr with rfl | rfl <;> decide)
+
+theorem exD_arity : Commute.ArityOk exD :=
+  Commute.arityOk_addCore _ _ (Commute.arityOk_addCore _ _ (Commute.arityOk_addCore _ _
+    (Commute.arityOk_addCore _ _ (Commute.arityOk_empty 1 1 1) trivial) ⟨_, _, rfl⟩) ⟨_, rfl⟩) trivial
+
+/-- the hypotheses of `compiled_tableau_independent_of_topological_order` are met by the two orders of `exD` with the
+    measurement forced to 1 (it is random in both orders, the recorded outcome is 1 in both), so the two final tableaux —
+    which are different tables — have the same signed stabilizer group; the runs are not the impossible state -/
+example : ∃ s1 s2 : RunState,
+    stabRun 1 1 .one [] ((exD.sops [1, 2, 3, 4]).map Commute.toCOp) = some s1 ∧
+    stabRun 1 1 .one [] ((exD.sops [1, 2, 4, 3]).map Commute.toCOp) = some s2 ∧
+    s1.outs = [true] ∧ s2.outs = [true] ∧ ∀ P, TabSpec.Grp s1.t P ↔ TabSpec.Grp s2.t P := by
+  have e1 : (stabRun 1 1 .one [] ((exD.sops [1, 2, 3, 4]).map Commute.toCOp)).map (·.outs) = some [true] := by
+    decide +kernel
+  have e2 : (stabRun 1 1 .one [] ((exD.sops [1, 2, 4, 3]).map Commute.toCOp)).map (·.outs) = some [true] := by
+    decide +kernel
+  obtain ⟨s1, h1, o1⟩ := Option.map_eq_some_iff.mp e1
+  obtain ⟨s2, h2, o2⟩ := Option.map_eq_some_iff.mp e2
+  refine ⟨s1, s2, h1, h2, o1, o2, ?_⟩
+  refine compiled_tableau_independent_of_topological_order exD exD_good exD_arity [1, 2, 3, 4] [1, 2, 4, 3]
+    (by decide) (by decide) .one .one [] [] s1 s2 h1 h2 ?_
+  rw [o1, o2]
+  rfl
+
+/-- the feasibility half of the commutation, spelled out: an assignment of outcomes that cannot occur when `b` is
+    compiled before `a` (the semantics returns `none`) cannot occur when `a` is compiled before `b` either -/
+example (ne np : Nat) (a b : SOp) (h : ∀ r, r ∈ a.regs → r ∉ b.regs) (s : Commute.GSt ne np)
+    (hb : (Commute.appG ne np a (Commute.appG ne np b s)).1 = none) :
+    (Commute.appG ne np b (Commute.appG ne np a s)).1 = none := by
+  rw [← Commute.appG_comm ne np a b h s]; exact hb
+
+/-- `H e0 ; CNOT e0→p0 ; P p1 ; W[H,P] e0` — gate-only, with two operations on `p1` / `e0` that can be exchanged -/
+def exG : Circuit :=
+  let ops : List Op := [⟨.base .H, [⟨.e, 0⟩], [], false⟩, ⟨.cnot, [⟨.e, 0⟩, ⟨.p, 0⟩], [], false⟩,
+    ⟨.base .P, [⟨.p, 1⟩], [], false⟩, ⟨.wrapper [.H, .P], [⟨.e, 0⟩], [], false⟩]
+  ops.foldl (fun c op => c.addCore op) (Circuit.empty 1 2 0)
+
+example : exG.isLinearExtension [1, 2, 3, 4] = true ∧ exG.isLinearExtension [3, 1, 2, 4] = true ∧
+    exG.isLinearExtension [1, 2, 4, 3] = true ∧ exG.sops [1, 2, 3, 4] ≠ exG.sops [3, 1, 2, 4] := by decide
+
+theorem exG_good : exG.Good := by
+  unfold exG
+  simp only [List.foldl_cons, List.foldl_nil]
+  repeat' (apply Good_addCore)
+  any_goals exact Good_empty 1 2 0
+  all_goals first
+    | (refine ⟨by decide, by decide, by decide, ?_⟩; intro _; exact ⟨⟨_, rfl⟩, rfl⟩)
+    | (refine ⟨by decide, by decide, by decide, ?_⟩; intro h; cases h)
+    | (intro r hr; simp only [List.mem_cons, List.not_mem_nil, or_false] at hr; rcases hr with rfl | rfl <;> decide)
+
+theorem exG_arity : Commute.ArityOk exG :=
+  Commute.arityOk_addCore _ _ (Commute.arityOk_addCore _ _ (Commute.arityOk_addCore _ _
+    (Commute.arityOk_addCore _ _ (Commute.arityOk_empty 1 2 0) trivial) ⟨_, _, rfl⟩) trivial) trivial
+
+theorem exG_gates : Commute.GateOnly exG := by
+  unfold Commute.GateOnly exG
+  simp only [List.foldl_cons, List.foldl_nil, addCore_eq]
+  repeat' (apply NodesSat_insertAt)
+  any_goals exact fun n op h => by simp [Circuit.empty] at h
+  all_goals trivial
+
+/-- the hypotheses of `gate_only_compile_independent_of_topological_order` are met by `exG`, and the run is a real one
+    (`stabRun` returns a state) -/
+example : stabRun 1 2 .zero [] ((exG.sops [1, 2, 3, 4]).map Commute.toCOp) =
+      stabRun 1 2 .zero [] ((exG.sops [3, 1, 2, 4]).map Commute.toCOp) ∧
+    (stabRun 1 2 .zero [] ((exG.sops [1, 2, 3, 4]).map Commute.toCOp)).isSome = true :=
+  ⟨gate_only_compile_independent_of_topological_order exG exG_good exG_arity exG_gates [1, 2, 3, 4] [3, 1, 2, 4]
+    (by decide) (by decide) .zero [], by decide +kernel⟩
+
+/-- `exD` was built by `add`: its measurement lies on the classical wire it writes; the record theorem applies to its two
+    orders (hypotheses `CThreaded`, `CArity`) -/
+example : Commute.CThreaded exD ∧ Commute.CArity exD :=
+  ⟨Commute.cThreaded_of_check exD exD_good.1 (by decide), Commute.cArity_of_check exD exD_good.1 (by decide)⟩
+
+/-- without threading the record *does* depend on the order: `MeasurementZ p0 → c0` and `MeasurementZ p1 → c0` with the second
+    one `insert_at`ed on its quantum wire only are unordered, and the two compile sequences leave different values in `c0`
+    when the outcomes differ (forced outcome 0 for `|0⟩`, and `X p1` before the second measurement makes its outcome 1) -/
+example :
+    let ops1 : List COp := [.gate1 .X ⟨.p, 1⟩, .measz ⟨.p, 0⟩ 0, .measz ⟨.p, 1⟩ 0]
+    let ops2 : List COp := [.gate1 .X ⟨.p, 1⟩, .measz ⟨.p, 1⟩ 0, .measz ⟨.p, 0⟩ 0]
+    (stabRun 0 2 .zero [] ops1).map (fun s => finalRecord 1 s.writes) = some [true] ∧
+    (stabRun 0 2 .zero [] ops2).map (fun s => finalRecord 1 s.writes) = some [false] := by decide +kernel
+
+/-- `H e0 ; CNOT e0→p0 ; X p0 ; MeasurementZ e0→c0 ; MeasurementZ p0→c1`: the two measurements are anticorrelated -/
+def exF : Circuit :=
+  let ops : List Op := [⟨.base .H, [⟨.e, 0⟩], [], false⟩, ⟨.cnot, [⟨.e, 0⟩, ⟨.p, 0⟩], [], false⟩,
+    ⟨.base .X, [⟨.p, 0⟩], [], false⟩, ⟨.measZ, [⟨.e, 0⟩], [0], false⟩, ⟨.measZ, [⟨.p, 0⟩], [1], false⟩]
+  ops.foldl (fun c op => c.addCore op) (Circuit.empty 1 1 2)
+
+/-- **why the outcomes must be attached to the operations** (hypothesis `hout`): with a *forced-outcome setting*
+    (`measurement_determinism = 0`) the state the loop compiles to does depend on the topological order — the measurement met
+    first is random and gets the forced 0, the other one is then determined to be 1.  Along `[…,4,5]` the emitter ends in
+    `|0⟩` (`+Z_e` is a stabilizer), along `[…,5,4]` in `|1⟩`; the per-register outcome streams differ, so `hout` fails. -/
+example : exF.isLinearExtension [1, 2, 3, 4, 5] = true ∧ exF.isLinearExtension [1, 2, 3, 5, 4] = true ∧
+    ∃ s1 s2 : RunState,
+      stabRun 1 1 .zero [] ((exF.sops [1, 2, 3, 4, 5]).map Commute.toCOp) = some s1 ∧
+      stabRun 1 1 .zero [] ((exF.sops [1, 2, 3, 5, 4]).map Commute.toCOp) = some s2 ∧
+      TabSpec.Grp s1.t (PRow.Zq 1 false) ∧ TabSpec.Grp s2.t (PRow.Zq 1 true) ∧
+      Commute.feed 1 1 (exF.sops [1, 2, 3, 4, 5]) s1.outs (fun _ => []) ⟨.e, 0⟩ = [false] ∧
+      Commute.feed 1 1 (exF.sops [1, 2, 3, 5, 4]) s2.outs (fun _ => []) ⟨.e, 0⟩ = [true] := by
+  refine ⟨by decide, by decide, ?_⟩
+  have e1 : (stabRun 1 1 .zero [] ((exF.sops [1, 2, 3, 4, 5]).map Commute.toCOp)).map
+      (fun s => (s.outs, Commute.grpCheck s.t (PRow.Zq 1 false))) = some ([false, true], true) := by decide +kernel
+  have e2 : (stabRun 1 1 .zero [] ((exF.sops [1, 2, 3, 5, 4]).map Commute.toCOp)).map
+      (fun s => (s.outs, Commute.grpCheck s.t (PRow.Zq 1 true))) = some ([false, true], true) := by decide +kernel
+  obtain ⟨s1, h1, o1⟩ := Option.map_eq_some_iff.mp e1
+  obtain ⟨s2, h2, o2⟩ := Option.map_eq_some_iff.mp e2
+  simp only [Prod.mk.injEq] at o1 o2
+  refine ⟨s1, s2, h1, h2, Commute.grp_of_grpCheck _ _ o1.2, Commute.grp_of_grpCheck _ _ o2.2, ?_, ?_⟩
+  · rw [o1.1]; rfl
+  · rw [o2.1]; rfl
+
+/-- the example after `unwrap_nodes`, `group_one_qubit_gates` and `remove_identity` -/
+def exC3 : Circuit :=
+  ((exC.unwrapNodes [2, 6]).groupOneQubitGates [⟨.e, 0⟩, ⟨.p, 0⟩, ⟨.c, 0⟩]).removeIdentity []
+
+theorem exC_good : exC.Good := by
+  unfold exC
+  simp only [List.foldl_cons, List.foldl_nil]
+  repeat' (apply Good_addCore)
+  any_goals exact Good_empty 1 1 1
+  all_goals first
+    | (refine ⟨by decide, by decide, by decide, ?_⟩; intro _; exact ⟨⟨_, rfl⟩, rfl⟩)
+    | (refine ⟨by decide, by decide, by decide, ?_⟩; intro h; cases h)
+    | (intro r hr; simp only [List.mem_cons, List.not_mem_nil, or_false] at hr; rcases hr with rfl | rfl <;> decide)
+
+/-- a chain of four rewrites on the example (unwrap, group, remove identities, empty noise map): hypotheses of the
+    `rewrite_chain_…` theorems -/
+example : ∃ c4, exC3.assignNoise [12, 14, 4, 13, 7] = .ok c4 ∧ Commute.RewritesStar exC c4 ∧ c4.flat = exC.flat := by
+  have hok : (okOr (exC3.assignNoise [12, 14, 4, 13, 7])).1 = true := by decide
+  cases hr : exC3.assignNoise [12, 14, 4, 13, 7] with
+  | error e => rw [hr] at hok; cases hok
+  | ok c4 =>
+    have hchain : Commute.RewritesStar exC c4 :=
+      .tail (.tail (.tail (.tail (.refl _) (.unwrap [2, 6])) (.group [⟨.e, 0⟩, ⟨.p, 0⟩, ⟨.c, 0⟩])) (.removeIdentity []))
+        (.assignNoise _ c4 hr)
+    exact ⟨c4, rfl, hchain, hchain.flat_eq exC_good⟩
 
 end Graphiq.C13
